@@ -28,7 +28,7 @@ use crate::{
     connection_provider::{ConnectionProvider, TlsConfig},
     name_server::NameServer,
     name_server_pool::{NameServerPool, NameServerTransportState, PoolContext},
-    net::DnsHandle,
+    net::{DnsError, DnsHandle, ForwardNSData, NetError},
     proto::{
         access_control::{AccessControlSet, AccessControlSetBuilder},
         op::{DnsRequestOptions, Message, Query},
@@ -440,6 +440,9 @@ impl<P: ConnectionProvider> RecursorDnsHandle<P> {
             Some(Ok(r)) => r,
             Some(Err(error)) => {
                 warn!(?query, %error, "lookup error");
+                // A negative response arrives in error form: apply the bailiwick rule to the
+                // records it carries before it is cached or handed to the caller.
+                let error = drop_out_of_bailiwick(error, &zone);
                 self.response_cache.insert(query, Err(error.clone()), now);
                 return Err(RecursorError::from(error));
             }
@@ -883,6 +886,49 @@ mod for_dnssec {
             .boxed()
         }
     }
+}
+
+/// Remove the records of a negative response (SOA, authorities, referral data) whose owner
+/// lies outside `zone`, the zone its sender was asked for.
+fn drop_out_of_bailiwick(error: NetError, zone: &Name) -> NetError {
+    let NetError::Dns(DnsError::NoRecordsFound(mut no_records)) = error else {
+        return error;
+    };
+
+    if matches!(&no_records.soa, Some(soa) if !is_subzone(zone, &soa.name)) {
+        no_records.soa = None;
+        no_records.negative_ttl = None;
+    }
+
+    if let Some(authorities) = no_records.authorities.take() {
+        no_records.authorities = Some(
+            authorities
+                .iter()
+                .filter(|record| is_subzone(zone, &record.name))
+                .cloned()
+                .collect(),
+        );
+    }
+
+    if let Some(name_servers) = no_records.ns.take() {
+        no_records.ns = Some(
+            name_servers
+                .iter()
+                .filter(|data| is_subzone(zone, &data.ns.name))
+                .map(|data| ForwardNSData {
+                    ns: data.ns.clone(),
+                    glue: data
+                        .glue
+                        .iter()
+                        .filter(|record| is_subzone(zone, &record.name))
+                        .cloned()
+                        .collect(),
+                })
+                .collect(),
+        );
+    }
+
+    NetError::Dns(DnsError::NoRecordsFound(no_records))
 }
 
 fn recursor_opts(
